@@ -107,6 +107,19 @@ CLAIMED = {
        "exercised, not modelled.",
   technique="Lean 4 proof over a model of the two-flag single pass + exhaustive small-scope and random differential correspondence",
   design="6.C16"),
+ "C20": dict(
+  text=("LLVM half, proof over the LlvmTools model with the tools as parameters: the lines of the merge tool's stdin "
+        "are exactly the profile list (each path once), one export result per binary whose export succeeded, a failing "
+        "export never removes another binary's result, and each report entry is the C01 aggregation of exactly the file "
+        "records of the successful exports. Tie: recording stand-ins for llvm-profdata/llvm-cov under --llvm-path over "
+        "generated layouts (profiles in dirs/zips/plain args; nested binary trees with ELF-headed executables, decoys, "
+        "failing binaries): their logs and the report vs the model and the independent aggregate. GCC half (checked, "
+        "not provable: an external program): generated C programs, gcc --coverage, 0-3 runs, grcov through real gcov "
+        "with 1 and 3 threads vs an independent reader of `gcov -b -c` text (per-line counts, function executed flags)."),
+  note=COMMON_NOTE + "gcc/gcov 12 are reference oracles, never modelled; llvm-profdata/llvm-cov are replaced by "
+       "recording stubs; find_binaries' directory walk (ignore crate, infer::is_app) is exercised, not modelled.",
+  technique="Lean 4 decision-logic theorems over a tool-parametric model + recording-stub differential runs + toolchain cross-check (gcc/gcov)",
+  design="6.C20"),
 }
 
 PENDING_REASON = "not claimed in this revision: model and check still being built (see DESIGN.md section 10)"
